@@ -8,6 +8,7 @@ import (
 	"sort"
 	"strings"
 	"testing"
+	"time"
 
 	"pgregory.net/rapid"
 
@@ -33,6 +34,7 @@ func TestDevFile(t *testing.T) {
 	if err := gobatch.Vet(p); err != nil {
 		t.Fatalf("vet: %v", err)
 	}
+	gobatch.EvalTimeout = 5 * time.Minute
 	got := gobatch.RunInterp(p)
 	fmt.Println("=== gomacro\n" + got.String())
 	if os.Getenv("C08_ORACLE") != "" {
